@@ -18,7 +18,8 @@ RULE = ('seeded generator: photon cubes 1..6 wavelengths x (2..24)^2, QE as scal
         'oversample 1..6; electron frames incl. negatives and values above saturation, the four gain forms with polynomial '
         'orders 1..4, saturation capacities, output dtypes.  distinct = distinct (shapes, pattern, os, gain form/order, data '
         'hash) descriptors; non-trivial = frame with > 1 pixel.')
-ASSUMPTIONS = ['gain polynomial values within 1e-9 (relative) of an integer may floor to either side']
+ASSUMPTIONS = ['gain polynomial values within 1e-9 (relative) of an integer may floor to either side',
+               'beyond 2**53 counts the floor is decided to 4 ulp of the polynomial value (neighbouring doubles are more than one count apart)']
 PLAN = {'quick': {'gen': 8}, 'thorough': {'gen': 16, 'tests': 1, 'docs': 1}}
 REQUIRED_BUCKETS = ['qe:scalar', 'qe:vector', 'qe:spectrum', 'qe:offset-table', 'unit:nm', 'unit:um', 'unit:m', 'unit:angstrom', 'bayer:k=1',
                     'bayer:k=2', 'bayer:k=3', 'bayer:k=4', 'bayer:os=1', 'bayer:os=2', 'bayer:os>=3', 'bayer:nonsquare',
